@@ -9,6 +9,7 @@ import LdpcV.Driver.C06
 import LdpcV.Driver.C14
 import LdpcV.Driver.C04F
 import LdpcV.Driver.C13
+import LdpcV.Driver.C12
 open LdpcV
 
 def dispatch (line : String) : String :=
@@ -32,6 +33,7 @@ def dispatch (line : String) : String :=
   | "c07" :: rest => Driver.C07.handle rest out
   | "c14" :: rest => Driver.C14.handle rest out
   | "c13" :: rest => Driver.C13.handle rest out
+  | "c12" :: rest => Driver.C12.handle rest out
   | _ => "BADLINE unknown-tag"
 
 partial def loop (h : IO.FS.Stream) (o : IO.FS.Stream) : IO Unit := do
